@@ -184,6 +184,9 @@ class AST:
         def walk(n, par):
             if not isinstance(n, dict):
                 return
+            if 'inner' in n:
+                # documentation comments attached to declarations are not part of the program
+                n['inner'] = [c for c in n['inner'] if not (isinstance(c, dict) and str(c.get('kind', '')).endswith('Comment'))]
             if 'id' in n and 'kind' in n:
                 if 'inner' in n or n['id'] not in self.by_id:
                     self.by_id[n['id']] = n
